@@ -1900,7 +1900,8 @@ def note_array_from_part_list(
         divs_per_parts = [
             part_na[0]["divs_pq"] for part_na in note_array if len(part_na)
         ]
-        lcm = np.lcm.reduce(divs_per_parts)
+        # (no part may have a note at all: nothing to rescale then)
+        lcm = np.lcm.reduce(divs_per_parts) if len(divs_per_parts) > 0 else 1
         time_multiplier_per_part = [int(lcm / d) for d in divs_per_parts]
         for na, time_mult in zip(
             [part_na for part_na in note_array if len(part_na)],
